@@ -444,3 +444,23 @@ func JSON(v any) string {
 	}
 	return string(b)
 }
+
+// AnswerCoreRequests answers what the stack's core handler asked this peer after its announcement
+// (the node management subscription call and the use case read), as a real device does: the sender
+// withholds a request identical to a still unanswered one.
+func (p *Peer) AnswerCoreRequests() {
+	for _, s := range p.Cap.All() {
+		switch {
+		case s.Classifier() == model.CmdClassifierTypeCall && s.Cmd().NodeManagementSubscriptionRequestCall != nil:
+			res := model.CmdType{ResultData: &model.ResultDataType{ErrorNumber: util.Ptr(model.ErrorNumberType(0))}}
+			p.Send(p.Msg(model.CmdClassifierTypeResult, p.NM(), s.D.Header.AddressSource, false, s.D.Header.MsgCounter, res))
+		case s.Classifier() == model.CmdClassifierTypeRead && s.Cmd().NodeManagementUseCaseData != nil:
+			cmd := model.CmdType{NodeManagementUseCaseData: &model.NodeManagementUseCaseDataType{}}
+			p.Send(p.Msg(model.CmdClassifierTypeReply, p.NM(), s.D.Header.AddressSource, false, s.D.Header.MsgCounter, cmd))
+		}
+	}
+	if p.W != nil {
+		p.W.Sync()
+		p.W.Events.Drain()
+	}
+}
